@@ -118,3 +118,8 @@ def extra_coverage(tier):
         "exhaustive_part": f"all patterns of length 0..{b['L']} x all accepted (min,max,sil,mode) with max_length<={b['M']} x (init_min,init_max_silence) in {list(INITS)}",
         "max_stream_len": b["maxlen"], "max_max_length": b["maxmax"],
     }
+
+
+def optimized_cases():
+    for n in range(0, 8):
+        yield from tokjobs.exh_cases(n, 0, 1 << n, 3, INITS)
